@@ -598,6 +598,9 @@ func (c *CheckRun) judgeInsts(insts []*Instance, depth int) {
 	for _, inst := range insts {
 		for k, n := range inst.EndMsgs {
 			if strings.HasPrefix(k, "enginebug") {
+				if os.Getenv("VERIF_DEBUG") != "" {
+					fmt.Fprintln(os.Stderr, k)
+				}
 				c.Broken = append(c.Broken, fmt.Sprintf("%s: %s (x%d)", inst.Key(), firstLine(k), n))
 			} else {
 				c.Inconcl = append(c.Inconcl, fmt.Sprintf("%s: %s (x%d)", inst.Key(), k, n))
